@@ -74,6 +74,7 @@ struct OpRec {
   bool done = false;
   bool overlap = false;   // overlaps (is concurrent with) some other operation
   uint16_t n_overlap = 0; // number of operations concurrent with this one
+  uint16_t n_overlap_same = 0; // ... of the same kind
   bool phase_main_after = false;
 };
 
@@ -97,11 +98,15 @@ inline void compute_overlaps(History& h) {
   size_t n = h.ops.size();
   for (size_t i = 0; i < n; ++i) {
     h.ops[i].n_overlap = 0;
+    h.ops[i].n_overlap_same = 0;
     for (size_t j = 0; j < n; ++j) {
       if (i == j)
         continue;
-      if (!precedes(h.ops[i], h.ops[j], h.weak) && !precedes(h.ops[j], h.ops[i], h.weak))
+      if (!precedes(h.ops[i], h.ops[j], h.weak) && !precedes(h.ops[j], h.ops[i], h.weak)) {
         h.ops[i].n_overlap++;
+        if (h.ops[i].kind == h.ops[j].kind)
+          h.ops[i].n_overlap_same++;
+      }
     }
     h.ops[i].overlap = h.ops[i].n_overlap > 0;
   }
